@@ -715,6 +715,17 @@ def check_plateaus(case):
         return [*labs, "drift-guard-raised"], False
     labs.append("returned")
     compare_plateaus(result, da, x, case, runs, all_runs)
+    # the call leaves its arguments as they were, so the same tolerance object selects the same
+    # runs when it is used again (seeded/C19-s4: a tolerance scaled in place by the drift guard)
+    fresh = build_atol(case)
+    if not (atol.unit == fresh.unit and atol.dtype == fresh.dtype and _same_values(atol.values, fresh.values)):
+        raise Violation("argument-modified",
+                        f"find_plateaus changed the caller's atol: {fresh.value!r} [{fresh.unit}] -> {atol.value!r} [{atol.unit}]")
+    pristine, _, _ = build_series(case)
+    _expect_var(da.data, pristine.data, "input data after the call")
+    _expect_var(da.coords[case["dim"]], pristine.coords[case["dim"]], "input coordinate after the call")
+    again = find_plateaus(da, atol=atol, min_n_points=build_mnp(case), plateau_dim=case["plateau_dim"])
+    compare_plateaus(again, da, x, case, runs, all_runs)
     # documented pipeline: collapse what find_plateaus returned
     stats = {}
     collapsed = collapse_plateaus(result, coord=case["dim"])
